@@ -143,6 +143,10 @@ def run(ctx):
     attribute_rewrites_are_consumed(ctx, "R01-l")
     paren_peelers_look_at_attributes(ctx, "R01-m")
     token_strings_are_consumed(ctx, "R01-n")
+    none_means_one_thing(ctx, "R01-o")
+    macro_parsers_skip_only_tested_tokens(ctx, "R01-p")
+    stream_parsers_reach_end_of_input(ctx, "R01-q", tab)
+    sibling_switches_separate_the_same_variants(ctx, "R01-r", tab)
     C = r.rule("R01-c", "no defaulted sub-rewrite: a RewriteResult / Option<String> returned by a Rewrite method is never turned into "
                         "an empty string (unwrap_or_default, unwrap_or(String::new()), unwrap_or_else(|_| String::new()))")
     latent = {e["fn"]: e["reason"] for e in tab.get("defaulted", [])}
@@ -889,3 +893,196 @@ def token_strings_are_consumed(ctx, rid):
                             "part of the result, and the token is not read again: the keyword is missing on that layout"
                             % ", ".join(bad[:4]), ["%s:%d" % (f.file, f.line)])
     r.floor(rid, n, 30, "token strings")
+
+
+def none_means_one_thing(ctx, rid):
+    """R01-o: a rewriter does not use `None` both for "nothing to print" and for "could not print" """
+    from common import bool_branches
+    p, r = ctx.p, ctx.r
+    r.rule(rid, "among the workspace functions that return Option<String> (the rewriters of the older interface), one that returns "
+                "`None` on the true edge of an `is_empty()` test — nothing to print — has no other way of producing `None`: no `?` "
+                "on an Option inside it.  Callers of such a function print nothing on `None`; if a failed sub-rewrite also comes "
+                "out as `None`, the node is dropped instead of being reported as unformattable (`type A = for<T…> fn(u8)` lost "
+                "its binder when the parameters did not fit)")
+    n = m = 0
+    for f in p.by_crate["rustfmt_nightly"]:
+        if f.kind == "Closure":
+            continue
+        rt = f.locals[0]
+        if not (rt.startswith("std::option::Option<std::string::String>") or rt.startswith("std::option::Option<std::borrow::Cow")):
+            continue
+        n += 1
+        nones = [bb for bb, i, st in f.stmts() if st[0] == "=" and st[1][0] == 0 and not st[1][1] and st[2][0] == "agg"
+                 and isinstance(st[2][1], list) and st[2][1][0] == "adt" and st[2][1][2] == "None"]
+        empties = []
+        for c in f.calls():
+            if c.name.endswith("::is_empty") and c.dest and not c.dest[1]:
+                for sw, tt, ff in bool_branches(f, c.dest[0]):
+                    for nb in nones:
+                        if tt is not None and nb in f.reachable(tt, avoid_blocks=[ff] if ff is not None else []) \
+                                and (ff is None or nb not in f.reachable(ff)):
+                            empties.append(c)
+        if not empties:
+            continue
+        m += 1
+        prop = [c for c in f.calls() if (c.declared or "") == "std::ops::FromResidual::from_residual"]
+        ok = not prop
+        r.instance(rid, "%s returns None for an empty result" % short(f.id), "ok" if ok else "violation", "%s:%d" % (f.file, f.line),
+                   "failure-propagating `?`: %d" % len(prop))
+        if not ok:
+            r.violation(rid, "%s returns None both for an empty result and for a failed sub-rewrite" % short(f.id),
+                        "callers cannot tell the two apart; those that print nothing on None drop the node when it merely failed to "
+                        "fit", ["%s:%d" % (f.file, f.line)] + [c.loc() for c in prop][:2])
+    r.floor(rid, n, 30, "workspace functions returning Option<String>")
+    r.floor(rid, m, 1, "rewriters with an `empty ⇒ None` return")
+
+
+def macro_parsers_skip_only_tested_tokens(ctx, rid):
+    """R01-p: rustfmt's own macro-argument parsers never step over a token they have not looked at"""
+    p, r = ctx.p, ctx.r
+    r.rule(rid, "in the hand-written parsers of macro arguments (module parse::macros and macros::MacroParser) every `Parser::bump()` "
+                "is separated from the previous token-consuming call (`bump`, `parse_*`, `eat*`, check_keyword) by a branch on "
+                "`parser.token` / its kind: the token that is skipped is one the code has identified.  The arguments are printed "
+                "from the parsed pieces, so a token stepped over blindly is a token missing from the output (`vec![1; n m]` ↦ "
+                "`vec![1; n]`)")
+    nb = 0
+    for f in p.by_crate["rustfmt_nightly"]:
+        if "parse::macros" not in f.id and "macros::MacroParser" not in f.id:
+            continue
+        bumps = [c for c in f.calls() if c.name.rsplit("::", 1)[-1] == "bump" and "Parser" in c.name]
+        if not bumps:
+            continue
+        tests = set()
+        for bb in range(len(f.blocks)):
+            t = f.term(bb)
+            if t[0] == "switch" and t[1][0] != "k":
+                d = f.derived_from(t[1][1][0])
+                if any(str(x[2]) in ("token", "kind") for x in d["fields"]) or any(
+                        isinstance(e, list) and e[0] == "f" and str(e[4]) in ("token", "kind") for e in t[1][1][1]):
+                    tests.add(bb)
+        consumers = [c for c in f.calls() if c.name.rsplit("::", 1)[-1] == "bump" or c.name.rsplit("::", 1)[-1].startswith("parse_")
+                     or c.name.rsplit("::", 1)[-1].startswith("eat") or c.name.rsplit("::", 1)[-1] == "check_keyword"]
+        for b in bumps:
+            nb += 1
+            bad = []
+            for c in consumers:
+                if c is b or c.bb in tests:
+                    continue
+                others = {x.bb for x in consumers if x is not b and x is not c}
+                for s0 in f.succ(c.bb):
+                    if b.bb in f.reachable(s0, avoid_blocks=tests | others):
+                        bad.append(c)
+                        break
+            after = sorted({short(c.name).rsplit("::", 1)[-1] for c in bad})
+            r.instance(rid, "%s: bump #%d" % (short(f.id), bumps.index(b) + 1), "violation" if bad else "ok", b.loc(),
+                       "follows a test of the current token" if not bad else "reachable from %s without a test" % ", ".join(after))
+            if bad:
+                r.violation(rid, "%s steps over a token it has not looked at (after %s)" % (short(f.id), ", ".join(after)),
+                            "between the previous token-consuming call and this bump no branch depends on parser.token: whatever "
+                            "token is there is dropped from the macro's arguments", [b.loc()] + [c.loc() for c in bad][:2])
+    r.floor(rid, nb, 3, "Parser::bump calls in the macro-argument parsers")
+
+
+def stream_parsers_reach_end_of_input(ctx, rid, tab):
+    """R01-q: whoever parses a macro's tokens into nodes accounts for all of them"""
+    p, r = ctx.p, ctx.r
+    r.rule(rid, "every function that builds a parser over a macro's token stream (build_parser / build_stream_parser) and returns "
+                "what it parsed: after each `parse_*` call, no successful return is reachable without a branch on `parser.token` "
+                "(the end-of-input test, in whatever form: `while token != Eof`, `match token.kind`, `== Eof`).  The macro is "
+                "printed from the parsed nodes, so tokens after the last parsed node are tokens dropped: `try!(b, c)` ↦ `b?`.  "
+                "Functions that leave the test to a rustc routine are listed in tables/C01.toml")
+    exc = {e["function"]: e["reason"] for e in tab.get("stream_parser_exception", [])}
+    n = 0
+    for f in p.by_crate["rustfmt_nightly"]:
+        if f.id.endswith("build_parser") or not any(c.name.endswith("build_parser") or c.name.endswith("build_stream_parser")
+                                                    for c in f.calls()):
+            continue
+        n += 1
+        tests = set()
+        for bb in range(len(f.blocks)):
+            t = f.term(bb)
+            if t[0] == "switch" and t[1][0] != "k":
+                d = f.derived_from(t[1][1][0])
+                if any(str(x[2]) in ("token", "kind") for x in d["fields"]) or any(
+                        isinstance(e, list) and e[0] == "f" and str(e[4]) in ("token", "kind") for e in t[1][1][1]):
+                    tests.add(bb)
+        cons = [c for c in f.calls() if c.name.rsplit("::", 1)[-1].startswith("parse_") or c.name.rsplit("::", 1)[-1] == "check_keyword"]
+        errb = {d.bb for d in f.calls() if (d.declared or "") == "std::ops::FromResidual::from_residual"} | {
+            bb for bb, i, st in f.stmts() if st[0] == "=" and st[1][0] == 0 and st[2][0] == "agg" and isinstance(st[2][1], list)
+            and st[2][1][0] == "adt" and st[2][1][2] in ("Err", "None")}
+        bad = []
+        for c in cons:
+            for s0 in f.succ(c.bb):
+                reach = f.reachable(s0, avoid_blocks=tests | errb)
+                if any(b in reach for b in f.returns()):
+                    bad.append(c)
+                    break
+        key = short(f.id)
+        if bad and key in exc:
+            r.instance(rid, "%s parses a macro's tokens" % key, "ok", "%s:%d" % (f.file, f.line), "exception: %s" % exc[key])
+            continue
+        r.instance(rid, "%s parses a macro's tokens" % key, "violation" if bad else "ok", "%s:%d" % (f.file, f.line),
+                   "%d parse calls, %d token tests" % (len(cons), len(tests)))
+        if bad:
+            r.violation(rid, "%s can return what it parsed without having looked for the end of the tokens" % key,
+                        "after %s a successful return is reachable on which parser.token is never examined: tokens after the parsed "
+                        "node are dropped" % ", ".join(sorted({short(c.name).rsplit("::", 1)[-1] for c in bad})),
+                        ["%s:%d" % (f.file, f.line)] + [c.loc() for c in bad][:2])
+    r.floor(rid, n, 4, "functions owning a macro-token parser")
+
+
+_TOKEN_ENUMS = ("rustc_ast::CaptureBy", "rustc_ast::Mutability", "rustc_ast::Safety", "rustc_ast::Const", "rustc_ast::ImplPolarity",
+                "rustc_ast::BoundPolarity", "rustc_ast::Defaultness", "rustc_ast::RangeLimits", "rustc_ast::BorrowKind",
+                "rustc_ast::Movability", "rustc_ast::BoundConstness", "rustc_ast::BoundAsyncness", "rustc_ast::IsAuto",
+                "rustc_ast::Extern", "rustc_ast::ByRef", "rustc_ast::RangeEnd", "rustc_ast::CoroutineKind", "rustc_ast::GenBlockKind",
+                "rustc_ast::StrStyle", "rustc_ast::TraitObjectSyntax", "rustc_ast::Pinnedness", "rustc_ast::MacStmtStyle")
+
+
+def sibling_switches_separate_the_same_variants(ctx, rid, tab):
+    """R01-r: sites that branch on the same keyword-bearing enum agree on which variants differ"""
+    from common import op_local
+    p, r = ctx.p, ctx.r
+    r.rule(rid, "cross-check of siblings: for the small rustc_ast enums whose variants are different source tokens (CaptureBy, Safety, "
+                "Extern, RangeLimits, BorrowKind, …) every `match` / `matches!` / `if let` on such a value in the workspace induces a "
+                "partition of the variants.  If some site sends two variants to different arms (closures.rs prints `move `, `use ` "
+                "and nothing for the three capture modes), a site that sends the same two variants to one arm either is listed in "
+                "tables/C01.toml with the reason the difference does not matter there, or prints one of them wrongly "
+                "(`async use { .. }` ↦ `async { .. }`)")
+    exc = {e["site"]: e["reason"] for e in tab.get("merged_variants_exception", [])}
+    sites = []
+    for f in p.by_crate["rustfmt_nightly"]:
+        for bb, i, st in f.stmts():
+            if st[0] == "=" and st[2][0] == "discr" and str(st[2][2]) in _TOKEN_ENUMS:
+                names = {int(v): nme for v, nme in st[2][3]}
+                for sb in range(len(f.blocks)):
+                    t = f.term(sb)
+                    if t[0] == "switch" and op_local(t[1]) == st[1][0]:
+                        groups = {}
+                        for v, tg in t[2]:
+                            groups.setdefault(tg, set()).add(names.get(int(v), str(v)))
+                        rest = {x for x in names.values() if not any(x in g for g in groups.values())}
+                        if rest:
+                            groups.setdefault(t[3], set()).update(rest)
+                        sites.append((str(st[2][2]), f, st[3], [frozenset(g) for g in groups.values()]))
+    separated = {}
+    for en, f, line, groups in sites:
+        for g in groups:
+            for h in groups:
+                if g is not h:
+                    for a in g:
+                        for b in h:
+                            separated.setdefault(en, set()).add(frozenset((a, b)))
+    n = 0
+    for en, f, line, groups in sites:
+        n += 1
+        merged = sorted({tuple(sorted(pair)) for g in groups for pair in separated.get(en, ()) if pair <= g})
+        site = "%s %s" % (short(f.id).split("::{closure")[0], en.rsplit("::", 1)[-1])
+        if merged and site in exc:
+            r.instance(rid, "%s (line-independent site)" % site, "ok", "%s:%d" % (f.file, line), "exception: %s" % exc[site])
+            continue
+        r.instance(rid, site, "violation" if merged else "ok", "%s:%d" % (f.file, line),
+                   "separates every pair a sibling separates" if not merged else "merges %s" % merged)
+        if merged:
+            r.violation(rid, "%s: %s go the same way although another site tells them apart" % (site, " / ".join("+".join(m) for m in merged)),
+                        "one of the merged variants is printed as the other", ["%s:%d" % (f.file, line)])
+    r.floor(rid, n, 20, "switches over keyword-bearing enums")
